@@ -63,19 +63,21 @@ Proof. exact prefix_collision. Qed.
 Print Assumptions C17_names_distinct_prefix_refuted.
 
 (* Expressions: parsing the printed token sequence gives the expression back, for the operator language
-   (+ - * / % and or == < > <= >=, unary minus, variables, literals, indexing) under wf_expr: literals are
-   non-negative and the left operand of a comparison is not itself a comparison. *)
-Theorem C17_expr_roundtrip_partial : forall e, wf_expr e = true -> parse_expr (print_toks e 0) = Some e.
+   (+ - * / % and or == < > <= >=, unary minus, variables, literals, indexing); wf_expr = inside this language
+   and literals non-negative (str(-3) reads back as unary minus of 3: same value, other tree). *)
+Theorem C17_expr_roundtrip : forall e, wf_expr e = true -> parse_expr (print_toks e 0) = Some e.
 Proof. exact expr_roundtrip. Qed.
-Print Assumptions C17_expr_roundtrip_partial.
+Print Assumptions C17_expr_roundtrip.
 
-(* Without the hypothesis the statement is false of the faithful model of _print_expr: (a == b) == c is printed
-   `a == b == c`, which Python and exo's parser read as the chain (a == b) and (b == c). *)
-Theorem C17_expr_roundtrip_refuted :
+(* Sensitivity / regression: for _print_expr as it was before the fix (left operand of a comparison printed at
+   the comparison's own precedence) the statement fails -- (a == b) == c was printed `a == b == c`, which Python
+   and exo's parser read as the chain (a == b) and (b == c). *)
+Theorem C17_expr_roundtrip_prefix_refuted :
   exists e : expr string,
-    expr_text e 0 = "a == b == c" /\
-    parse_expr (print_toks e 0) =
+    wf_expr e = true /\
+    toks_text (print_toks_prefix e 0) = "a == b == c" /\
+    parse_expr (print_toks_prefix e 0) =
       Some (EBin OpAnd (EBin OpEq (ERead "a" []) (ERead "b" [])) (EBin OpEq (ERead "b" []) (ERead "c" []))) /\
-    parse_expr (print_toks e 0) <> Some e.
-Proof. exact roundtrip_chain_counterexample. Qed.
-Print Assumptions C17_expr_roundtrip_refuted.
+    parse_expr (print_toks_prefix e 0) <> Some e.
+Proof. exact prefix_roundtrip_chain_counterexample. Qed.
+Print Assumptions C17_expr_roundtrip_prefix_refuted.
